@@ -433,26 +433,22 @@ def compiled_paths(log):
 
 
 def run_harness(mode, cpath, out_path, extra=(), log=None, timeout=3000):
-    """pf-harness <mode> <case file> [extra]; stdout -> out_path.  The harness ends with status 3 and `HANG <case>` lines when
-    a case does not return within its deadline (C09): those cases are taken out of the case file and the rest is run again.
-    Returns the case lines that hung."""
-    hung = []
-    for _ in range(25):
-        with open(out_path, 'w') as f:
-            p = subprocess.run([HBIN, mode, cpath] + list(extra), stdout=f, stderr=subprocess.PIPE, env=ENV, timeout=timeout)
-        if p.returncode == 3:
-            now = [l[5:] for l in p.stderr.decode(errors='replace').splitlines() if l.startswith('HANG ')]
-            if now:
-                hung += now
-                keep = [l for l in open(cpath).read().splitlines() if l.strip() and l not in set(now)]
-                open(cpath, 'w').write('\n'.join(keep) + '\n')
-                if log:
-                    log('harness %s: %d case(s) did not return within the deadline; re-running without them' % (mode, len(now)))
-                continue
-        if p.returncode != 0:
-            raise Infra('harness %s failed: %s' % (mode, p.stderr.decode(errors='replace')[-2000:]))
-        return hung
-    raise Infra('harness %s: cases keep hanging' % mode)
+    """pf-harness <mode> <case file> [extra]; stdout -> out_path.  A case that does not return within its deadline is recorded
+    by the harness itself as `RESULT hang` (worker pool with a watchdog) and the other cases go on; returns those case lines."""
+    with open(out_path, 'w') as f:
+        p = subprocess.run([HBIN, mode, cpath] + list(extra), stdout=f, stderr=subprocess.PIPE, env=ENV, timeout=timeout)
+    if p.returncode != 0:
+        raise Infra('harness %s failed: %s' % (mode, p.stderr.decode(errors='replace')[-2000:]))
+    hung, cur = [], None
+    with open(out_path) as f:
+        for line in f:
+            if line.startswith('CASE '):
+                cur = line[5:].strip()
+            elif line.startswith('RESULT hang') and cur:
+                hung.append(cur)
+    if hung and log:
+        log('harness %s: %d case(s) did not return within the deadline' % (mode, len(hung)))
+    return hung
 
 
 def hang_props(hung):
@@ -491,7 +487,6 @@ def run_s1(seed, tier, log):
             raise Infra('driver failed: %s' % o[-2000:])
     log('S1/S2: model checked the traces in %.1fs' % (time.time() - t0))
     res = parse_verdicts('\n'.join(outs))
-    res['props'] += hang_props(hung)
     res['hung'] = [p_['id'] for p_ in hang_props(hung)]
     res['ncases'] = len(cases)
     res['cases_path'] = cpath
@@ -1192,7 +1187,8 @@ def run_s9(seed, tier, log):
                   'EMPTY_LIST;MARK;NONE;TUPLE1*%d;APPENDS;DUP;APPEND' % n],
               4: ['EMPTY_SET;MARK;NONE;TUPLE1*%d;ADDITEMS;NONE' % n, 'MARK;NONE;TUPLE1*%d;FROZENSET;MEMOIZE;NONE' % n,
                   'NONE;TUPLE1*%d;MEMOIZE;BINGET;TUPLE2' % n],
-              1: ['MARK;NONE;MARK;LIST;APPEND;LIST' + ';MARK;NONE;MARK;LIST;APPEND;LIST' * 2]}
+              # protocol 1 has no TUPLE1: nest lists through MARK ... LIST
+              1: ['NONE' + ';MARK;NONE;LIST' * 3, 'EMPTY_LIST;DUP;APPEND;MARK;NONE;LIST']}
     pf = os.path.join(BUILD, 'deep.paths')
     plines = ['v=%d path=%s' % (v, sh_) for v, ss in shapes.items() for sh_ in ss]
     open(pf, 'w').write('\n'.join(plines) + '\n')
@@ -1394,7 +1390,8 @@ def run_lines_suite(name, mode_h, mode_d, cases, seed, tier, log):
             raise Infra('driver failed: %s' % o[-2000:])
     text = '\n'.join(outs)
     res = parse_verdicts(text)
-    res['props'] += hang_props(hung)
+    have = set((p_['id'], p_['prop']) for p_ in res['props'])
+    res['props'] += [p_ for p_ in hang_props(hung) if (p_['id'], 'C09') not in have]
     res['okn'] = sum(1 for l in text.splitlines() if l.startswith('OK'))
     res['nops'] = sum(int(m.group(1)) for m in re.finditer(r'^OK\d \S+ (?:ops|calls)=(\d+)', text, re.M))
     res['ncases'] = len(cases)
